@@ -456,7 +456,9 @@ pub fn stream_par(out: &mut Out, seed: u64, thorough: bool) {
 fn one_par<T: Sc>(out: &mut Out, rng: &mut Rng, thorough: bool, i: usize, threads: usize) {
     let wk = WKINDS[i % WKINDS.len()];
     let fl = if i % 2 == 0 { Flavour::MrhsPar } else { Flavour::NewPar };
-    let mut c = base_case::<T>(rng, thorough, i, fl, wk);
+    // one case in twelve (one per pool size in the quick tier): thousands of samples
+    let gen_idx = if i % 12 == 11 { 96 * (i / 12) + 45 } else { i };
+    let mut c = base_case::<T>(rng, thorough, gen_idx, fl, wk);
     if c.origin == "random" {
         c.origin = "par";
     }
